@@ -10,6 +10,7 @@ package schema
 import (
 	"encoding/json"
 	"fmt"
+	"net/url"
 	"reflect"
 	"strconv"
 	"strings"
@@ -1005,7 +1006,7 @@ func (g *NestedRefGenerator) generateSchema(t reflect.Type) *openapi3.Schema {
 	// Struct types: check if already seen
 	if seenInfo, exists := g.seen[t]; exists {
 		// Generate inline $ref pointing to first occurrence
-		refPath := strings.Join(seenInfo.FirstPath, "/")
+		refPath := jsonPointerFragment(seenInfo.FirstPath)
 		return &openapi3.Schema{
 			Extensions: map[string]interface{}{
 				"$ref": refPath,
@@ -1029,6 +1030,23 @@ func (g *NestedRefGenerator) generateSchema(t reflect.Type) *openapi3.Schema {
 
 	seenInfo.Schema = schema
 	return schema
+}
+
+// jsonPointerFragment renders a path of member names ("#" first) as a JSON
+// Pointer in URI fragment form: "~" and "/" inside a name are escaped as "~0"
+// and "~1" (RFC 6901), other characters a fragment cannot carry are
+// percent-encoded.
+func jsonPointerFragment(path []string) string {
+	segments := make([]string, len(path))
+	for i, segment := range path {
+		if i == 0 && segment == "#" {
+			segments[i] = segment
+			continue
+		}
+		segment = strings.ReplaceAll(strings.ReplaceAll(segment, "~", "~0"), "/", "~1")
+		segments[i] = url.PathEscape(segment)
+	}
+	return strings.Join(segments, "/")
 }
 
 func (g *NestedRefGenerator) generateStructSchema(t reflect.Type) *openapi3.Schema {
